@@ -19,4 +19,18 @@ CHECKS = {
     ),
 }
 
+CHECKS["C03"] = dict(
+    text=("Lean theorem UxVerif.C03.build_meets_spec: for EVERY input meeting the decidable precondition Incidence.Pre (valid "
+          "entries, every edge in one or two faces; any size mix, numbering, coverage, isolated faces, any valence) the models of "
+          "_build_node_faces_connectivity, _build_edge_face_connectivity, _build_face_face_connectivity and "
+          "_construct_hole_edge_indices satisfy Incidence.Spec: node_face and edge_face are exact transposes of face_node / "
+          "face_edge, a boundary edge is [face, FILL], face_face lists each neighbour once per shared edge, hole edges are "
+          "exactly the single-incidence edges. All three loops are instances of one proved fact about table-updating loops "
+          "(keyedFold_get). The model is tied to the code by a differential run (outputs identical, 48/48 in quick) and the "
+          "same Lean predicate is evaluated on the implementation's output; dtype and _FillValue are run-time assertions."),
+    note=_TB + "Modelled, not verified: Python dict/list/np.pad semantics, numba compilation of the edge_face loop; "
+         "face_edge/n_nodes_per_face are inputs (their correctness is C02). File-supplied tables (MPAS) only when small enough.",
+    technique="Lean 4 theorem over a hand model + differential correspondence with Lean-evaluated spec",
+)
+
 NOT_APPLICABLE = {}
